@@ -52,6 +52,7 @@ type Rec struct {
 	start    time.Time
 	dir      string
 	maxSamples int
+	scratch  bool
 }
 
 const maxHashes = 4 << 20
@@ -147,6 +148,9 @@ func (r *Rec) NViolations() int { r.mu.Lock(); defer r.mu.Unlock(); return len(r
 // Violate records a violation under a narrow label. At most 3 witnesses per
 // label are kept; each gets a replay file. The shard file is flushed at once.
 func (r *Rec) Violate(label, what string, detail interface{}) {
+	if r.scratch {
+		return
+	}
 	r.mu.Lock()
 	r.labels[label]++
 	n := r.labels[label]
@@ -167,6 +171,9 @@ func (r *Rec) Violate(label, what string, detail interface{}) {
 }
 
 func (r *Rec) Flush(done bool) {
+	if r.scratch {
+		return
+	}
 	r.mu.Lock()
 	defer r.mu.Unlock()
 	r.s.Done = done
@@ -198,4 +205,13 @@ func (r *Rec) Flush(done bool) {
 func (r *Rec) Finish() bool {
 	r.Flush(true)
 	return r.NViolations() > 0
+}
+
+// NewScratch returns a recorder whose content is never written anywhere (used when a
+// fixture is only built for replaying, not monitored).
+func NewScratch() *Rec {
+	r := &Rec{distinct: map[uint64]struct{}{}, labels: map[string]int{}, start: time.Now(), dir: os.TempDir(), maxSamples: 0}
+	r.s = Shard{Property: "scratch", Counters: map[string]int64{}, Floors: map[string]int64{}, Extra: map[string]interface{}{}}
+	r.scratch = true
+	return r
 }
